@@ -1207,6 +1207,83 @@ def run_caps(ctx):
 
 
 
+def run_cap_tails(ctx):
+    """The canonical-tail clause of every base32 production in the cap grammar: for each cap kind, each base32
+    field of its body and each length class of a literal body, all 32 values of the field's last character.
+    A value whose unused low bits are zero is another well-formed cap (decodes, and prints back as given); every
+    other value must come back opaque (UnknownURI holding the given text) -- never a typed cap, never an exception."""
+    from allmydata import uri
+    from allmydata.util import base32
+    rounds = ctx.n(1, 12)
+
+    def sweep(text, start, end, kindname, marker=b"", deep=False):
+        field = text[start:end]
+        nbits = 5 * len(field)
+        unused = nbits - 8 * (nbits // 8)
+        for v in range(32):
+            t = text[:end - 1] + B32[v:v + 1] + text[end:]
+            full = marker + t
+            canonical = (v % (1 << unused) == 0) and len(field) % 8 not in (1, 3, 6)
+            case = {"codec": "cap-string", "op": "from_string", "input": full.hex(), "text": full.decode("latin-1"), "cap_kind": kindname,
+                    "field": field.decode(), "last_char_value": v, "unused_bits": unused, "deep_immutable": deep}
+            try:
+                r = uri.from_string(full, deep_immutable=deep, name=u"c38")
+            except Exception as e:
+                ctx.case(None, kind="cap-tail-raises")
+                ctx.oracle_fail("cap-from-string-raises", "uri.from_string(%r) raised %s instead of returning a cap or an UnknownURI" % (full, type(e).__name__),
+                                case=case, expected="UnknownURI" if not canonical else "a typed cap", observed=type(e).__name__)
+                continue
+            opaque = isinstance(r, uri.UnknownURI)
+            back = r.to_string()
+            ctx.case(("captail", full) if not opaque else None, kind="cap-tail-canonical" if canonical else "cap-tail-noncanonical")
+            if opaque and back != full:
+                ctx.oracle_fail("cap-opaque-text-not-preserved", "uri.from_string(%r) is opaque but hands back %r" % (full, back), case=case)
+            if not opaque and back != t:
+                ctx.oracle_fail("cap-noncanonical-base32-accepted",
+                                "uri.from_string(%r) decoded to a %s that prints as %r: a %s field whose last character has unused low bits set (value %d, %d unused bit(s)) is read as another cap" % (
+                                    full, type(r).__name__, back, kindname, v, unused), case=case, expected="UnknownURI", observed=back.decode("latin-1"))
+            elif not opaque and not canonical:
+                ctx.oracle_fail("cap-noncanonical-base32-accepted", "uri.from_string(%r) decoded a %s field whose unused low bits are not zero (last character value %d, %d unused bit(s))" % (
+                    full, kindname, v, unused), case=case, expected="UnknownURI", observed=type(r).__name__)
+            if opaque and canonical and marker == b"" and not deep:
+                ctx.oracle_fail("cap-intact-not-decoded", "uri.from_string(%r) did not decode a well-formed %s cap" % (full, kindname), case=case)
+
+    for i in range(rounds):
+        r = ctx.rng("captail", i)
+        caps = make_caps(r)
+        for text in caps:
+            parts = text.split(b":")
+            kindname = b":".join(parts[:2]).decode()
+            if b"LIT" in parts[1]:
+                continue
+            # base32 fields of the body: 26 characters (128 bits) and 52 characters (256 bits)
+            pos = 0
+            for j, part in enumerate(parts):
+                if j >= 2 and len(part) in (26, 52) and all(c in B32 for c in part):
+                    sweep(text, pos, pos + len(part), kindname)
+                pos += len(part) + 1
+        # literal bodies: every length class (0..4 bytes mod 5), short and long, plain and behind markers
+        for n in [1, 2, 3, 4, 5, 6, 7, 8, 9, 10, r.choice([21, 22, 23, 24, 25]), r.choice([51, 52, 53, 54, 55])]:
+            body = base32.b2a(rbytes(r, n))
+            for prefix in (b"URI:LIT:", b"URI:DIR2-LIT:"):
+                text = prefix + body
+                sweep(text, len(prefix), len(text), prefix[:-1].decode())
+                if n <= 5:
+                    sweep(text, len(prefix), len(text), prefix[:-1].decode(), marker=r.choice([b"ro.", b"imm."]), deep=bool(n % 2))
+            # bodies of impossible lengths (1, 3, 6 characters mod 8) are never decoded
+            for extra in (1, 3, 6):
+                bad = b"URI:LIT:" + base32.b2a(rbytes(r, 5 * (n % 3))) + bytes(r.choice(B32) for _ in range(extra))
+                cap_case(ctx, bad, b"", False, False)
+                try:
+                    rr = uri.from_string(bad)
+                    if not isinstance(rr, uri.UnknownURI):
+                        ctx.oracle_fail("cap-noncanonical-base32-accepted", "uri.from_string(%r) decoded a literal body of impossible length" % bad,
+                                        case={"codec": "cap-string", "op": "from_string", "input": bad.hex()})
+                except Exception as e:
+                    ctx.oracle_fail("cap-from-string-raises", "uri.from_string(%r) raised %s" % (bad, type(e).__name__), case={"codec": "cap-string", "op": "from_string", "input": bad.hex()})
+
+
+
 def run(ctx):
     B = Batch(ctx)
     run_base32(ctx, B)
@@ -1218,6 +1295,7 @@ def run(ctx):
     run_headers(ctx, B)
     run_recognition(ctx, B)
     run_caps(ctx)
+    run_cap_tails(ctx)
     B.flush()
 
 
